@@ -170,6 +170,11 @@ class G:
         for _ in range(r.choice([0, 0, 1, 2, 3])):
             k = r.choice(["fill", "stroke", "stroke-width", "opacity", "fill-opacity", "stroke-dasharray", "font-size", "font-family", "style", "class",
                           "stroke-linecap", "visibility", "display", "fill-rule", "transform", "clip-path", "filter", "marker-end"])
+            if k in ("clip-path", "filter", "marker-end") and r.random() < 0.25:
+                # the keyword values of the reference-valued properties
+                self.feats.add("keyword." + k)
+                out.append((k, r.choice(["none", "inherit"])))
+                continue
             if (k == "clip-path" and "clip0" not in self.defined) or (k == "filter" and "filt0" not in self.defined) or (k == "marker-end" and "mark0" not in self.defined):
                 continue
             v = {"fill": r.choice(["red", "#fc0", "#12ab34", "rgb(1,2,3)", "rgb(10%, 20%, 30%)", "none", "currentColor"] + (["url(#grad0)"] if "grad0" in self.defined else [])),
@@ -214,6 +219,11 @@ class G:
             a = [("cx", self.length()), ("cy", self.length()), ("rx", self.length()), ("ry", self.length())]
         elif k == "line":
             a = [("x1", self.length()), ("y1", self.length()), ("x2", self.length()), ("y2", self.length())]
+            if r.random() < 0.12:
+                # coordinates left to their default (0): a line from the origin, or to it
+                drop = r.choice([("x1", "y1"), ("x2", "y2"), ("x1",), ("y2",)])
+                a = [p for p in a if p[0] not in drop]
+                self.feats.add("line.default-coordinates")
         elif k in ("polyline", "polygon"):
             a = [("points", self.points())]
         elif k == "path":
@@ -231,6 +241,10 @@ class G:
             a = [(href, "#" + tgt)] + ([("x", self.number()), ("y", self.number())] if r.random() < 0.7 else []) + ([("width", self.length()), ("height", self.length())] if r.random() < 0.2 else [])
         elif k == "text":
             content = r.choice(["Hello", "a &amp; b", "x &lt; y", "multi word text", "  padded  ", "&#169; 2024"])
+            if r.random() < 0.15:
+                # character data in several pieces: text around a CDATA section, consecutive CDATA sections
+                content = r.choice(["a<![CDATA[b < c]]>d", "<![CDATA[one]]><![CDATA[ two]]>", "x &amp; <![CDATA[y & z]]>", "<![CDATA[only]]>", "<![CDATA[head]]> tail"])
+                self.feats.add("text.cdata-pieces")
             def coord():
                 kk = r.random()
                 if kk < 0.5:
@@ -261,6 +275,12 @@ class G:
             if k == "a":
                 self.feats.add("el.a")
             kids = "".join(self.shape(depth + 1) for _ in range(r.randint(1, 3)))
+            if r.random() < 0.06:
+                # long plain values (well beyond any limit meant for variables) on a container
+                self.feats.add("value.long-on-container")
+                extra = extra + [r.choice([("transform", " ".join("translate(%d,%d)" % (i % 7, i % 5) for i in range(r.choice([90, 140, 400])))),
+                                           ("style", ";".join("--p%d: %d" % (i, i) for i in range(r.choice([120, 300])))),
+                                           ("class", " ".join("cls%d" % i for i in range(260)))])]
             return "<%s%s>%s</%s>" % (k, self.attrs_text(ida + extra + pres), kids, k)
         if ida and k in ("rect", "circle", "ellipse", "path", "polygon"):
             self.ids.append(ida[0][1])
@@ -485,6 +505,12 @@ def run_shard(ctx):
         g = G(rng)
         doc, root = g.document()
         cfg = dict(auto=False) if rng.random() < 0.7 else (dict(theme=rng.choice(["default", "dark"])) if rng.random() < 0.5 else None)
+        if rng.random() < 0.12:
+            # limits meant for variables and loops lowered: plain SVG content uses neither
+            cfg = dict(cfg or {}, var=rng.choice([0, 8, 16, 64]))
+            if rng.random() < 0.5:
+                cfg["loop"] = rng.choice([0, 1, 5])
+            g.feats.add("config.low-var-loop-limits")
         case = dict(input=doc.encode("utf-8"), cfg=cfg, root=root, feats=sorted(g.feats), nontrivial=any(f.startswith(("num.", "sep.", "path.", "transform.", "length.", "href.", "text.")) for f in g.feats))
         check_case(ctx, case)
         if j < 2:
